@@ -130,7 +130,7 @@ pub fn gen_system(r: &mut Rng, n_tables: usize) -> System {
     let width = r.range(1, 2);
     let mut ctls = Vec::new();
     let mut deg2: Option<usize> = None;
-    match if width == 1 { r.below(3) } else { 0 } {
+    match if width == 1 { r.below(4) } else { 0 } {
         1 => {
             // a looking table that appears twice in the same lookup (two column sets, two filters): helper columns
             let mut looking: Vec<Side> = others.iter().map(|t| Side { table: *t, cols: vec![0], filter: Some(2) }).collect();
@@ -148,6 +148,14 @@ pub fn gen_system(r: &mut Rng, n_tables: usize) -> System {
             // two lookups over the same tables, on different columns and filters
             ctls.push(Ctl { looking: others.iter().map(|t| Side { table: *t, cols: vec![0], filter: Some(2) }).collect(), looked: Side { table: looked_t, cols: vec![0], filter: Some(2) } });
             ctls.push(Ctl { looking: others.iter().map(|t| Side { table: *t, cols: vec![1], filter: Some(3) }).collect(), looked: Side { table: looked_t, cols: vec![1], filter: Some(3) } });
+        }
+        3 => {
+            // the looked table also looks into itself (other columns, other filter) next to the other tables:
+            // its openings hold a looking sum and a looked sum which the verifier must not mix up
+            let mut looking: Vec<Side> = others.iter().map(|t| Side { table: *t, cols: vec![0], filter: Some(2) }).collect();
+            looking.push(Side { table: looked_t, cols: vec![1], filter: Some(3) });
+            looking.sort_by_key(|s| s.table);
+            ctls.push(Ctl { looking, looked: Side { table: looked_t, cols: vec![0], filter: Some(2) } });
         }
         _ => {
             let cols: Vec<usize> = (0..width).collect();
@@ -466,11 +474,52 @@ fn exec_n<const N: usize>(case: &Case, rep: &mut Report) {
     if sys.ctls.iter().any(|c| c.looking.len() > 1) {
         rep.probe("c10.ctl.several_looking_tables");
     }
+    let self_lookup = sys.ctls.iter().any(|c| c.looking.iter().any(|s| s.table == c.looked.table));
+    // ---- final stage alone (`verify_cross_table_lookups`): balanced first-row sums are accepted, a shifted one is not.
+    // The stage reads no challenge, so any sums with looked = Σ looking are honest input; per table the openings are
+    // laid out lookup by lookup, challenge by challenge, the looking sum before the looked sum.
+    if case.only.is_none() {
+        let mut r = Rng::new(case.fault_seed ^ 0x5e1f);
+        let ctls: Vec<CrossTableLookup<F>> = sys.ctls.iter().map(|c| CrossTableLookup::new(c.looking.iter().map(twc).collect(), twc(&c.looked))).collect();
+        let mut firsts: Vec<Vec<F>> = vec![Vec::new(); N];
+        for c in &sys.ctls {
+            for _ in 0..cfg.num_challenges {
+                let mut tabs: Vec<usize> = c.looking.iter().map(|s| s.table).collect();
+                tabs.dedup();
+                let mut sum = 0u64;
+                for t in tabs {
+                    let v = r.felt();
+                    sum = rm::add(sum, v);
+                    firsts[t].push(fe(v));
+                }
+                firsts[c.looked.table].push(fe(sum));
+            }
+        }
+        let stage = |f: Vec<Vec<F>>| guarded(|| verify_cross_table_lookups::<F, D, N>(&ctls, to_arr(f), &HashMap::new(), &cfg).is_ok()).unwrap_or(false);
+        rep.case(base_sig ^ hash_str("final_stage.balanced"), true);
+        if !stage(firsts.clone()) {
+            return viol(rep, case, None, "final_stage.balanced", "balanced_first_row_sums_rejected", "verify_cross_table_lookups rejected looked = sum of looking".into());
+        }
+        let t = r.usize(N);
+        if !firsts[t].is_empty() {
+            use plonky2::field::types::Field;
+            let i = r.usize(firsts[t].len());
+            let mut bad = firsts.clone();
+            bad[t][i] += F::ONE;
+            rep.case(base_sig ^ hash_str("final_stage.shifted"), true);
+            rep.fault("c10.ctl.final_stage_sum_shifted");
+            if stage(bad) {
+                return viol(rep, case, None, "final_stage.shifted", "unbalanced_first_row_sums_accepted", format!("table {t} opening {i} shifted by one"));
+            }
+        }
+    }
     let (ok, why) = run::<N>(sys, &cfg, &case.sched);
     rep.absorb_seams();
     rep.case(base_sig, true);
     if !ok {
-        return viol(rep, case, None, "honest", "honest_multi_table_system_not_accepted", why);
+        // a table that looks into itself is keyed apart: the library's own `num_ctl_helpers_zs_all` counts the looking
+        // and the looked appearance as one running sum with a helper column, `from_proof` and the prover as two sums
+        return viol(rep, case, None, if self_lookup { "honest.table_looks_into_itself" } else { "honest" }, "honest_multi_table_system_not_accepted", why);
     }
     // the simulator's own running sums give the same verdict as the library's (calibration of the Byzantine prover)
     if case.only.is_none() {
